@@ -97,6 +97,10 @@ def _cases_first_call(tier):
             # a time axis with no records yet, a single record, and what isel(time=0) leaves: a scalar time coordinate
             for shape in ('empty', 'single', 'scalar'):
                 out.append({'part': 'file', 'spec': spec, 'regime': regime, 'units': FILE_UNITS[1], 'time_shape': shape})
+            # the calendar named the way real files name it (CF: case insensitive); a duration variable stored as floating hours
+            for calendar in ('Gregorian', 'STANDARD', 'Proleptic_Gregorian'):
+                out.append({'part': 'file', 'spec': spec, 'regime': regime, 'units': FILE_UNITS[2], 'calendar': calendar})
+            out.append({'part': 'file', 'spec': spec, 'regime': regime, 'units': FILE_UNITS[0], 'duration_variable': True})
             # the period of the units given at save time (Dataset.to_netcdf's encoding argument) rather than by the source
             out.append({'part': 'file', 'spec': spec, 'regime': regime, 'units': FILE_UNITS[0], 'encoding_argument': 'minutes'})
     return out
@@ -195,6 +199,14 @@ def run_file(case, rec):
         ds[truth.time_name].encoding['units'] = case['units']
         # 'int32': six-hourly data requested as whole days etc.: xarray re-expresses the units when writing
         ds[truth.time_name].encoding['dtype'] = np.dtype(case.get('time_dtype', 'float64'))
+        if case.get('calendar'):
+            rec.nontrivial(('calendar', case['calendar']))
+            ds[truth.time_name].encoding['calendar'] = case['calendar']
+        if case.get('duration_variable'):
+            rec.nontrivial('duration')
+            ds['lead_time'] = xr.DataArray(np.array([3, 6], dtype='timedelta64[h]').astype('timedelta64[ns]')[:ds.sizes[truth.time_dim]],
+                                           dims=[truth.time_dim], attrs={'long_name': 'forecast lead time'})
+            ds['lead_time'].encoding.update({'dtype': np.dtype('float64'), 'units': 'hours'})
         if case.get('reference_time'):
             ds['forecast_reference_time'] = xr.DataArray(np.datetime64('2021-11-10T12:00:00', 'ns'), attrs={'long_name': 'reference time'})
             ds['forecast_reference_time'].encoding.update({'units': 'hours since 2021-01-01 00:00:00', 'dtype': np.dtype('float64')})
